@@ -435,6 +435,119 @@ fn check_update_fields(rep: &mut Report, case: u64, world: &World, s: &Setup, ps
     }
 }
 
+/// The planning API is the other updater: `Plan::update_psbt_input` must record the same scripts
+/// and taproot commitments as `update_input_with_descriptor` did (which `check_update_fields`
+/// has just validated against the models), and key origins only for keys of the descriptor.
+fn check_plan_update(rep: &mut Report, case: u64, world: &World, s: &Setup, psbt: &Psbt, i: usize) {
+    use miniscript::plan::Assets as LibAssets;
+    let ip = &s.inputs[i];
+    let mut keys = vec![];
+    ip.desc.for_each_key(|k| {
+        keys.push(k.clone());
+        true
+    });
+    let internal = match &ip.desc {
+        Descriptor::Tr(tr) => Some(tr.internal_key().clone()),
+        _ => None,
+    };
+    for without_internal in [false, true] {
+    if without_internal && internal.is_none() {
+        continue;
+    }
+    let mut assets = LibAssets::new();
+    for k in &keys {
+        if without_internal && Some(k) == internal.as_ref() {
+            continue; // forces a script-path plan
+        }
+        assets = assets.add(k.clone().into_descriptor_public_key());
+    }
+    for p in &world.pre {
+        assets = assets
+            .add(sha256::Hash::from_byte_array(p.sha256))
+            .add(miniscript::hash256::Hash::from_byte_array(p.hash256))
+            .add(ripemd160::Hash::from_byte_array(p.ripemd160))
+            .add(hash160::Hash::from_byte_array(p.hash160));
+    }
+    assets = assets.after(s.tx.lock_time);
+    if let Some(l) = s.tx.input[i].sequence.to_relative_lock_time() {
+        assets = assets.older(l);
+    }
+    for mall in [false, true] {
+        let d = ip.desc.clone();
+        let a2 = &assets;
+        let plan = match guarded(std::panic::AssertUnwindSafe(move || if mall { d.into_plan_mall(a2) } else { d.into_plan(a2) })) {
+            Ok(Ok(p)) => p,
+            Ok(Err(_)) => {
+                rep.count("plan-update:no-plan");
+                continue;
+            }
+            Err(m) => {
+                rep.violation(case, format!("C14:panic:into_plan:{}", norm_loc(&last_panic_loc())), format!("into_plan panicked ({}) on {}", m, ip.case.desc));
+                continue;
+            }
+        };
+        let mut fresh = bitcoin::psbt::Input::default();
+        if guarded(std::panic::AssertUnwindSafe(|| plan.update_psbt_input(&mut fresh))).is_err() {
+            rep.violation(case, format!("C14:panic:Plan::update_psbt_input:{}", norm_loc(&last_panic_loc())), ip.case.desc.clone());
+            continue;
+        }
+        let by_desc = &psbt.inputs[i];
+        let mut bad = vec![];
+        if fresh.witness_script != by_desc.witness_script {
+            bad.push(format!("witness_script {:?} vs {:?}", fresh.witness_script.as_ref().map(|x| hex(x.as_bytes())), by_desc.witness_script.as_ref().map(|x| hex(x.as_bytes()))));
+        }
+        if fresh.redeem_script != by_desc.redeem_script {
+            bad.push(format!("redeem_script {:?} vs {:?}", fresh.redeem_script.as_ref().map(|x| hex(x.as_bytes())), by_desc.redeem_script.as_ref().map(|x| hex(x.as_bytes()))));
+        }
+        if fresh.tap_internal_key.is_some() && fresh.tap_internal_key != by_desc.tap_internal_key {
+            bad.push("tap_internal_key differs".into());
+        }
+        if fresh.tap_merkle_root.is_some() && fresh.tap_merkle_root != by_desc.tap_merkle_root {
+            bad.push("tap_merkle_root differs".into());
+        }
+        for (cb, sv) in &fresh.tap_scripts {
+            if by_desc.tap_scripts.get(cb) != Some(sv) {
+                bad.push("tap_scripts entry unknown to the descriptor updater".into());
+            }
+        }
+        for (pk, src) in &fresh.bip32_derivation {
+            // one map entry per secp key: the same key in two encodings has two fingerprints
+            let some_form = keys.iter().any(|k2| k2.to_public_key().inner == *pk && src.0 == k2.master_fingerprint() && Some(src.1.clone()) == k2.full_derivation_path());
+            if by_desc.bip32_derivation.get(pk) != Some(src) && !some_form {
+                bad.push(format!("bip32_derivation of {} differs from the descriptor updater", pk));
+            }
+        }
+        // the leaf the plan spends through (if it is a script spend)
+        let planned_leaf: Option<TapLeafHash> = fresh.tap_scripts.values().next().map(|(sc, ver)| TapLeafHash::from_script(sc, *ver));
+        for (x, (lhs, src)) in &fresh.tap_key_origins {
+            match by_desc.tap_key_origins.get(x) {
+                Some((lhs2, src2)) if src2 == src => {
+                    // BIP-371: the leaf hashes name the leaves the key is used in
+                    if lhs.iter().any(|l| !lhs2.contains(l)) {
+                        bad.push(format!("tap_key_origins of {} lists a leaf the key is not in", x));
+                    }
+                    if let Some(pl) = planned_leaf {
+                        if lhs2.contains(&pl) && !lhs.contains(&pl) {
+                            bad.push(format!("tap_key_origins of {} omits the leaf the plan signs in", x));
+                        }
+                    }
+                }
+                _ => bad.push(format!("tap_key_origins of {} differs from the descriptor updater", x)),
+            }
+        }
+        if bad.is_empty() {
+            rep.count("plan-update-consistent-with-descriptor-update");
+        } else {
+            rep.violation(
+                case,
+                format!("C14:plan-update-fields:{:?}:{}", ip.case.kind, bad[0].split(' ').take(if bad[0].starts_with("tap_key_origins") { 6 } else { 1 }).filter(|w| w.len() < 20).collect::<Vec<_>>().join("-")),
+                format!("Plan::update_psbt_input (mall={}, internal key {}) for {} records fields inconsistent with the descriptor's output: {}", mall, if without_internal { "withheld" } else { "available" }, ip.case.desc, bad.join("; ")),
+            );
+        }
+    }
+    }
+}
+
 pub fn run(cfg: &RunCfg, rep: &mut Report) {
     let world = World::new(cfg.seed);
     let total = cfg.n_cases(12_000, 300_000);
@@ -577,7 +690,10 @@ pub fn run(cfg: &RunCfg, rep: &mut Report) {
                         rep.violation(i, "C14:not-idempotent:finalize_inp".into(), format!("finalizing input {} again, which was already final, returned an error: {}", k, describe(&s, &hist)));
                     }
                 }
-                (Op::Update(k), Outcome::Ok) => check_update_fields(rep, i, &world, &s, &psbt, *k),
+                (Op::Update(k), Outcome::Ok) => {
+                    check_update_fields(rep, i, &world, &s, &psbt, *k);
+                    check_plan_update(rep, i, &world, &s, &psbt, *k);
+                }
                 (Op::Update(k), Outcome::Err(_)) => {
                     rep.violation(i, "C14:update-refused".into(), format!("update_input_with_descriptor({}) refused a matching utxo: {}", k, describe(&s, &hist)));
                 }
